@@ -134,6 +134,7 @@ type FuncAnalysis struct {
 	depth int
 	entry FactSet
 	derived []Derived
+	phiDepth int
 }
 
 func (e *Engine) canExpand(fn *ssa.Function) bool {
@@ -604,7 +605,39 @@ func (a *FuncAnalysis) condFacts(c ssa.Value, pol bool) []*Fact {
 	if !pol {
 		k = "F"
 	}
-	return []*Fact{{Kind: k, A: []*Node{a.D.D(c)}}}
+	out := []*Fact{{Kind: k, A: []*Node{a.D.D(c)}}}
+	// short-circuit values: x := a && b is φ(false, b); knowing x is true means the
+	// b-edge was taken, so b holds and so does every branch condition on the
+	// single-predecessor chain leading to that edge (here: a). Dually for ||.
+	if phi, ok := c.(*ssa.Phi); ok && a.phiDepth < 4 {
+		cand := -1
+		for i, e := range phi.Edges {
+			if cst, isC := e.(*ssa.Const); isC && cst.Value != nil && cst.Value.Kind() == constant.Bool && constant.BoolVal(cst.Value) != pol {
+				continue // this edge cannot produce the observed value
+			}
+			if cand >= 0 {
+				cand = -2
+				break
+			}
+			cand = i
+		}
+		if cand >= 0 && cand < len(phi.Block().Preds) {
+			a.phiDepth++
+			if _, isC := phi.Edges[cand].(*ssa.Const); !isC {
+				out = append(out, a.condFacts(phi.Edges[cand], pol)...)
+			}
+			b := phi.Block().Preds[cand]
+			for depth := 0; depth < 8 && len(b.Preds) == 1; depth++ {
+				q := b.Preds[0]
+				if iff, ok := q.Instrs[len(q.Instrs)-1].(*ssa.If); ok && len(q.Succs) == 2 && q.Succs[0] != q.Succs[1] {
+					out = append(out, a.condFacts(iff.Cond, q.Succs[0] == b)...)
+				}
+				b = q
+			}
+			a.phiDepth--
+		}
+	}
+	return out
 }
 
 func (a *FuncAnalysis) nilFact(x ssa.Value, isNil bool) *Fact {
